@@ -6,12 +6,13 @@ YncaApi.initialize() is rendered as the label sequence of the model —
     msg            the connection hands a message to the API's callback (its own invocation record),
     wake           the API unregisters its callback: the wait ended by the event,
     timeout        the caller calls close() without having unregistered: the wait ended by the time-out,
+    construct n    a subunit object has submitted the n commands of its initialize() and starts to wait (L7t: its own deadline begins),
     subunitOk      a subunit object that was constructed (it registers its callback; its `id` is compared with the id the MODEL is about
                    to construct) has been initialised: the next object is constructed, or initialize() returns,
     subunitFails   … initialize() raised instead,
     close          the user's close(),
     tick           passage of virtual time —
-and the compiled driver (`ynca_model api`) executes `L7.step` on it.  Every label must be enabled (a wake needs the event, the time-out
+and the compiled driver (`ynca_model api`) executes `L7.stepT` (L7 with the clock of the per-object waits, Model/ApiTimed.lean) on it.  Every label must be enabled (a wake needs the event, the time-out
 is possible exactly at the model's deadline `2 s + 5·spacing·n`, the clock cannot pass the deadline of a waiting caller, objects are
 constructed in the model's order) and the model's key list must be the key list of the real `_subunits`, in order, when initialize()
 returns or raises and after close().  A run that differs is a broken correspondence (not by itself a violation).
@@ -80,6 +81,17 @@ def render(spec, run, preempt):
                 if e.get("sid") is None:
                     return None, "an object without id registered a callback"
                 evs.append((e["seq"], e["t"], ("construct", e["sid"])))
+                # the object's own wait begins when its initialize() has submitted its commands (L7t: `construct n`)
+                nxt = regs[i + 1]["seq"] if i + 1 < len(regs) else aret["seq"]
+                sub = [x for x in body if x["k"] == "ret" and x["op"][0] in ("get", "put", "raw") and e["seq"] < x["seq"] < nxt and x["th"] == main]
+                if sub and not any(x.get("exc") for x in sub):
+                    last = next((x for x in reversed(sub) if x["op"][:3] == ["get", "SYS", "VERSION"]), None)
+                    if last is None:
+                        return None, "an object's initialize() did not reach its wait"
+                    sub = [x for x in sub if x["seq"] <= last["seq"]]
+                    evs.append((last["seq"] + 0.5, last["t"], f"construct {len(sub)}"))
+                else:
+                    return None, "an object's initialize() did not reach its wait"
                 if i + 1 < len(regs):
                     evs.append((regs[i + 1]["seq"] - 0.5, regs[i + 1]["t"], "subunitOk"))
             if regs:
